@@ -1933,6 +1933,16 @@ func (e *ex) do(op string) core.Result {
 		if early {
 			core.Count("close-returned-early")
 		}
+		if sc.mitm {
+			core.Count("mitm")
+		}
+		if sc.abort {
+			core.Count("client-abort")
+		}
+		if sc.stall > 0 && !sc.abort {
+			core.Count("client-stall")
+		}
+		core.Count(fmt.Sprintf("close-callers:%d", sc.nclose))
 		detail := v.fail
 		if detail != "" {
 			detail += " | trace: " + strings.Join(trace, " ")
